@@ -143,7 +143,8 @@ static bool valid_set_attr_len(enum xcm_attr_type type, size_t len)
     case xcm_attr_type_bin:
 	return true;
     default:
-	ut_assert(0);
+	/* not a valid type, and thus no length is valid */
+	return false;
     }
 }
 
